@@ -69,6 +69,16 @@ NOTES = {
  "C16-5": "caught as it was (C16's unsupported family contains the supported shapes with other compare operators)",
  "C18-5": "caught as it was (C18's role matrix: brain.ListPartition served without adopting the leader's revision)",
  "C20-5": "missed by C20 and C05 at first (no watch ever had to catch up on more than 30 000 cached events); C05 got large catch-up cases; the blocked registration shows up as the driver's post-mortem 'stall request-never-returns' verdict",
+ "C01-5": "not caught by C01 itself (its workload runs no compaction); C07's re-create placement catches it now that 3 of 9 C07 histories run behind the production metrics wrapper (key-not-writable-normally-after-compaction)",
+ "C03-5": "caught as it was (C03 and C13 on engines reporting several partitions compare range results in order)",
+ "C07-5": "caught as it was (C07 fault enumeration)",
+ "C10-5": "missed by C10 and C19 at first (the coder was only ever called by one goroutine at a time, and concurrent workloads use keys longer than the shared array's spare capacity); C10 got concurrent round trips of 0-12 byte keys, C19 the same workload under the race detector",
+ "C11-5": "missed by C11 at first (no zero-length values); values of length 0 are now used on the engines that accept them. This also exposed defect 32 on the unchanged tree (memkv compare-and-delete on a key that is gone, fixed in 839069c)",
+ "C12-5": "not caught by C12 itself (the ttl only matters after an hour); C17 catches it (events deleted and created again, added for seed C17-3)",
+ "C14-5": "missed by C14 at first (nothing but the candidates' own steps touched the lock objects); programs with a request for the node's election info between the loop's Get and its write were added, on locks of real backends whose election service answers them",
+ "C15-5": "missed by C15 at first (future expectations were filtered out of the old leader's history); refused writes with expected revisions 1e9..5e17 ahead are now part of it",
+ "C17-5": "caught as it was (look-alike key <prefix>/eventsx/y)",
+ "C19-5": "missed by C19 at first (single-partition engines only, no failing scans); a workload of scans on multi-partition engines whose partition workers fail at the same time (iterator errors, cancelled contexts) was added",
  "C20-3": "missed by C20 at first: the node ends the process through klog.Fatal, which the driver used to classify as an inconclusive child death; the worker now lets klog FATAL lines through to stderr and the driver reports 'crash klog.Fatal in <file>' as a violation (except the deliberate 'leader lost' exit)",
 }
 for d in sorted(glob.glob('/verif/seeded/C*')):
